@@ -102,6 +102,38 @@ def check_visitor(ctx, lib):
             val = o.of_operand(pushes[0][1]["args"][1])
             ok = ms(vec, Call("std::vec::Vec::<T>::new")) and ms(val, Call("serde::de::SeqAccess::next_element", Each(P2))) and \
                 ms(okt[0], Agg(VAR + "::Array", Each(Call("std::vec::Vec::<T>::new")))) and unconditional_add(b, o, nx[0], pushes[0])
+        if not ok and not pushes and len(nx) == 0:
+            # pull form: from_fn(|| seq.next_element().transpose()).collect::<Result<Vec<_>, _>>() — from_fn yields until the
+            # closure answers None, transpose turns Ok(None) into that None and Ok(Some(x)) / Err(e) into items, and collecting
+            # into Result stops at the first Err: every element, in arrival order, first error returned
+            from ..analysis import strip_through
+            allr = set().union(*okt) if okt else set()
+            good = bool(allr) and not tails
+            for t in allr:
+                if not (t[0] == "agg" and t[1] == VAR + "::Array" and len(t[2]) == 1):
+                    good = False
+                    continue
+                for c in t[2][0]:
+                    c = strip_through(c)
+                    if not (c[0] == "call" and c[1] == "std::iter::Iterator::collect" and len(c[2]) == 1):
+                        good = False
+                        continue
+                    for ff in c[2][0]:
+                        if not (ff[0] == "call" and ff[1] == "std::iter::from_fn" and len(ff[2]) == 1 and len(ff[2][0]) == 1):
+                            good = False
+                            continue
+                        clo = next(iter(ff[2][0]))
+                        cb = lib.fn(clo[1]) if clo[0] == "closure" else None
+                        if cb is None or len(clo[2]) != 1 or set(clo[2][0]) != {P2}:
+                            good = False
+                            continue
+                        r = Origins(cb, lib).of_local(0)
+                        good = good and bool(r) and all(
+                            x[0] == "call" and x[1].endswith("::transpose") and len(x[2]) == 1 and x[2][0] and
+                            all(y[0] == "call" and y[1] == "serde::de::SeqAccess::next_element" and
+                                set(y[2][0]) == {("field", ("closure_env",), "0")} for y in x[2][0]) for x in r)
+                        good = good and [tt["callee"] for _, tt in cb.calls() if not tt["callee"].endswith("::transpose")] == ["serde::de::SeqAccess::next_element"]
+            ok = good
         row("visit_seq", ok, "every next_element is pushed, in arrival order, nothing dropped; the result is that Array")
     b = found.get("visit_map")
     if b is not None:
@@ -263,6 +295,25 @@ def check_tryfrom(ctx, lib):
             ok = ok and len(oks) == 1 and ms(o.of_operand(oks[0][1]), Agg(VAR + "::Object", Each(Call(r"BTreeMap::<K, V>::new$", regex=True))))
             # no entry is skipped: from the Some arm of next() the loop head is reached only through the insert
             ok = ok and unconditional_add(cm, o, nx[0], ins[0])
+        if not ins:
+            # the same as an iterator chain: entries.map(|(k, v)| Ok((k.to_owned(), v.to_jmespath()?))).collect::<Result<BTreeMap..>>()
+            from ..collected import ELEM, describe_vector
+            oks, _ = RT.ok_values(cm)
+            ok = bool(oks)
+            for _, op in oks:
+                for t in o.of_operand(op):
+                    if not (t[0] == "agg" and t[1] == VAR + "::Object" and len(t[2]) == 1):
+                        ok = False
+                        continue
+                    d = describe_vector(lib, cm, o, set(t[2][0]))
+                    if d is None or len(d) != 1:
+                        ok = False
+                        continue
+                    bd = d[0]
+                    want = ("agg", "tuple", (fs({("field", ELEM, "0")}), fs({("call", "ToJmespath::to_jmespath", (fs({("field", ELEM, "1")}),), None)})), ())
+                    got = {(v[0], v[1], v[2], ()) if v[0] == "agg" else v for v in bd.value}
+                    got = {(g[0], g[1], tuple(fs((y[0], y[1], y[2], None) if y[0] == "call" else y for y in comp) for comp in g[2]), ()) if g[0] == "agg" else g for g in got}
+                    ok = ok and bd.source == {P1} and bd.every_item and got == {want}
         n += 1
         ctx.check(ok, rule, "convert_map", "every (key, value) entry is inserted under its own key with the value converted recursively", cm.span)
     ctx.floor(rule, n, 13, "Value conversion rows")
